@@ -118,7 +118,7 @@ func Profile(name string) Knobs {
 		k.PSmallPods = 0.4
 		k.PExtRes = 0.4
 		k.KindWeights = map[string]int{"cpu": 3, "besteffort": 1, "whole": 5, "fraction": 3, "gpumem": 2, "multifrac": 1, "mig": 1, "ext": 4}
-		k.PDRA = 0.3 // DRA (dra.go)
+		k.PDRA = draAccounting * 0.3 / 0.35 // DRA (dra.go); see draAccounting
 	case "fractions": // C02
 		k.NodesMax = 3
 		k.GPUChoices = []int{1, 2, 2, 4}
